@@ -287,8 +287,7 @@ def check_bulk(out, facts):
         return
     ev = sym.Evaluator(facts)
     ctx = sym.Ctx(ev, f)
-    ctx.env[f['params'][0]['v']] = ('param', 'slice', None)
-    ctx.env[f['params'][1]['v']] = ('dest',)
+    bind_slice_dest(f, ctx)
     v, t = ev.ev(f['thir'], ctx)
     alts = [x for x in sym.walk(t) if x[0] == 'alt' and isinstance(strip(x[1]), tuple) and strip(x[1])[0] == 'const' and strip(x[1])[1].endswith('TYPE_INFO')]
     ok = len(alts) == 1
